@@ -369,6 +369,11 @@ func (o *coreOracle) checkRolloutStatus(s *Sim, w *Write) {
 	}
 	steps := rd.Spec.Strategy.GetSteps()
 	jumpPending := rs.NextStepIndex != nextBatchIndex(rd, rs.CurrentStepIndex) && rs.NextStepIndex > 0
+	if jumpPending && ns.CurrentStepIndex == rs.NextStepIndex && (ns.CurrentStepIndex != rs.CurrentStepIndex ||
+		ns.CurrentStepState == v1beta1.CanaryStepStateTrafficRouting || ns.CurrentStepState == v1beta1.CanaryStepStateInit) {
+		s.probe("c02.jump") // includes a jump onto the current step (same replicas: straight to traffic routing)
+		return
+	}
 	if ns.CurrentStepIndex != rs.CurrentStepIndex {
 		switch {
 		case jumpPending && ns.CurrentStepIndex == rs.NextStepIndex:
@@ -429,7 +434,7 @@ func (o *coreOracle) checkRolloutStatus(s *Sim, w *Write) {
 		case br == nil:
 			s.Violate("C02", "G3-upgrade", "G3/nobr/"+fam, w.Seq, "step %d left StepUpgrade although the reconcile saw no BatchRelease", idx)
 		case br.Spec.ReleasePlan.BatchPartition == nil || int(*br.Spec.ReleasePlan.BatchPartition) != idx-1:
-			s.Violate("C02", "G3-upgrade", "G3/partition/"+fam, w.Seq, "step %d left StepUpgrade with BatchRelease batchPartition=%v", idx, br.Spec.ReleasePlan.BatchPartition)
+			s.Violate("C02", "G3-upgrade", "G3/partition/"+fam, w.Seq, "step %d left StepUpgrade with BatchRelease batchPartition=%s", idx, dumpJSON(br.Spec.ReleasePlan.BatchPartition))
 		case br.Status.ObservedGeneration != br.Generation:
 			s.Violate("C02", "G3-upgrade", "G3/generation/"+fam, w.Seq, "step %d left StepUpgrade with BatchRelease generation %d observed %d", idx, br.Generation, br.Status.ObservedGeneration)
 		case br.Status.CanaryStatus.CurrentBatchState != v1beta1.ReadyBatchState || int(br.Status.CanaryStatus.CurrentBatch)+1 < idx:
@@ -488,60 +493,17 @@ func (o *coreOracle) checkBRStatusWrite(s *Sim, w *Write) {
 		nb.Status.CanaryStatus.CurrentBatch > rd.Status.CanaryStatus.CurrentBatch {
 		s.Violate("C11", "B2-partition", "B2/"+fam, w.Seq, "BatchRelease moved to batch %d beyond batchPartition %d", nb.Status.CanaryStatus.CurrentBatch, *plan.BatchPartition)
 	}
-	// B1: Ready means ready
-	if nb.Status.Phase == v1beta1.RolloutPhaseProgressing && nb.Status.CanaryStatus.CurrentBatchState == v1beta1.ReadyBatchState {
-		stable, canary := o.workloadAsRead(s, rd)
-		b := int(nb.Status.CanaryStatus.CurrentBatch)
-		if stable != nil && b < len(plan.Batches) {
-			var n, updated, ready int
-			known := true
-			style := plan.RollingStyle
-			switch wl := stable.(type) {
-			case *kruisev1alpha1.CloneSet:
-				n, updated, ready = int(*wl.Spec.Replicas), int(wl.Status.UpdatedReplicas), int(wl.Status.UpdatedReadyReplicas)
-			case *appsv1.Deployment:
-				n = int(*wl.Spec.Replicas)
-				if style == v1beta1.CanaryRollingStyle || plan.EnableExtraWorkloadForCanary {
-					if canary == nil {
-						known = false
-					} else {
-						updated, ready = int(canary.Status.Replicas), int(canary.Status.AvailableReplicas)
-					}
-				} else {
-					updated = int(wl.Status.UpdatedReplicas)
-					es := v1alpha1.DeploymentExtraStatus{}
-					_ = json.Unmarshal([]byte(wl.Annotations[v1alpha1.DeploymentExtraStatusAnnotation]), &es)
-					ready = int(es.UpdatedReadyReplicas)
-				}
-			default:
-				known = false
-			}
-			if known && n > 0 {
-				s.probe("c11.ready-writes")
-				want := planned(plan.Batches[b].CanaryReplicas, n)
-				if _, isDep := stable.(*appsv1.Deployment); isDep && style != v1beta1.CanaryRollingStyle && !plan.EnableExtraWorkloadForCanary && style != v1beta1.BlueGreenRollingStyle {
-					// documented meaning of a percentage partition on a Deployment: below 100% it never demands the last pod
-					if plan.Batches[b].CanaryReplicas.Type == intstr.String && plan.Batches[b].CanaryReplicas.StrVal != "100%" && n > 1 && want > n-1 {
-						want = n - 1
-					}
-				}
-				if nn := rd.Status.CanaryStatus.NoNeedUpdateReplicas; nn != nil && *nn > 0 {
-					want = int(*nn) + planned(plan.Batches[b].CanaryReplicas, n-int(*nn))
-				}
-				want -= slack(n)
-				tol := 0
-				if plan.FailureThreshold != nil {
-					tol = plannedFloorUp(*plan.FailureThreshold, updated)
-				}
-				switch {
-				case updated < want:
-					s.Violate("C11", "B1-ready", "B1/updated/"+fam, w.Seq, "batch %d reported Ready with %d updated pods, plan calls for %d of %d", b, updated, want, n)
-				case ready+tol < want:
-					s.Violate("C11", "B1-ready", "B1/ready/"+fam, w.Seq, "batch %d reported Ready with %d ready updated pods (+%d tolerated), plan calls for %d of %d", b, ready, tol, want, n)
-				case want > 0 && ready == 0:
-					s.Violate("C11", "B1-ready", "B1/none-ready/"+fam, w.Seq, "batch %d reported Ready with no ready updated pod (plan calls for %d)", b, want)
-				}
-			}
+	if s.cur != nil {
+		if s.cur.Flags == nil {
+			s.cur.Flags = map[string]bool{}
+		}
+		s.cur.Flags["br-status-write"] = true
+	}
+	// B1: a batch is reported Ready only when the workload (as this reconcile saw it) is ready
+	entering := ob.Status.CanaryStatus.CurrentBatchState != v1beta1.ReadyBatchState || ob.Status.CanaryStatus.CurrentBatch != nb.Status.CanaryStatus.CurrentBatch
+	if nb.Status.Phase == v1beta1.RolloutPhaseProgressing && nb.Status.CanaryStatus.CurrentBatchState == v1beta1.ReadyBatchState && entering {
+		if msg := o.batchNotReady(s, rd, int(nb.Status.CanaryStatus.CurrentBatch)); msg != "" {
+			s.Violate("C11", "B1-ready", "B1/"+fam, w.Seq, "batch %d reported Ready but %s", nb.Status.CanaryStatus.CurrentBatch, msg)
 		}
 	}
 	// B3: Completed means released
@@ -560,6 +522,117 @@ func (o *coreOracle) checkBRStatusWrite(s *Sim, w *Write) {
 			}
 		}
 	}
+}
+
+// batchNotReady evaluates the documented readiness criterion of batch b on the workload version the
+// current reconcile has read; "" means ready or not decidable.
+func (o *coreOracle) batchNotReady(s *Sim, rd *v1beta1.BatchRelease, b int) string {
+	plan := rd.Spec.ReleasePlan
+	stable, canary := o.workloadAsRead(s, rd)
+	if stable == nil || b >= len(plan.Batches) || b < 0 || wl2gen(stable) {
+		return ""
+	}
+	var n, updated, ready int
+	style := plan.RollingStyle
+	switch wl := stable.(type) {
+	case *kruisev1alpha1.CloneSet:
+		n, updated, ready = int(*wl.Spec.Replicas), int(wl.Status.UpdatedReplicas), int(wl.Status.UpdatedReadyReplicas)
+	case *appsv1.Deployment:
+		n = int(*wl.Spec.Replicas)
+		if style == v1beta1.CanaryRollingStyle || plan.EnableExtraWorkloadForCanary {
+			if canary == nil || wl2gen(canary) {
+				return ""
+			}
+			updated, ready = int(canary.Status.Replicas), int(canary.Status.AvailableReplicas)
+		} else {
+			updated = int(wl.Status.UpdatedReplicas)
+			es := v1alpha1.DeploymentExtraStatus{}
+			_ = json.Unmarshal([]byte(wl.Annotations[v1alpha1.DeploymentExtraStatusAnnotation]), &es)
+			ready = int(es.UpdatedReadyReplicas)
+		}
+	default:
+		return ""
+	}
+	if n == 0 {
+		return ""
+	}
+	s.probe("c11.ready-evaluations")
+	want := planned(plan.Batches[b].CanaryReplicas, n)
+	if _, isDep := stable.(*appsv1.Deployment); isDep && style != v1beta1.CanaryRollingStyle && !plan.EnableExtraWorkloadForCanary && style != v1beta1.BlueGreenRollingStyle {
+		// documented meaning of a percentage partition on a Deployment: below 100% it never demands the last pod
+		if plan.Batches[b].CanaryReplicas.Type == intstr.String && plan.Batches[b].CanaryReplicas.StrVal != "100%" && n > 1 && want > n-1 {
+			want = n - 1
+		}
+	}
+	if nn := rd.Status.CanaryStatus.NoNeedUpdateReplicas; nn != nil && *nn > 0 {
+		want = int(*nn) + planned(plan.Batches[b].CanaryReplicas, n-int(*nn))
+	}
+	want -= slack(n)
+	tol := 0
+	if plan.FailureThreshold != nil {
+		tol = plannedFloorUp(*plan.FailureThreshold, updated)
+	}
+	switch {
+	case updated < want:
+		return fmt.Sprintf("only %d updated pods, plan calls for %d of %d", updated, want, n)
+	case ready+tol < want:
+		return fmt.Sprintf("only %d ready updated pods (+%d tolerated), plan calls for %d of %d", ready, tol, want, n)
+	case want > 0 && ready == 0:
+		return fmt.Sprintf("no ready updated pod (plan calls for %d)", want)
+	}
+	return ""
+}
+
+// B4: a reconcile that had nothing else to persist, read a workload (same revision, settled status) that
+// fails the readiness criterion and still left the batch Ready.
+func (o *coreOracle) OnReconcileEnd(s *Sim, info *RecInfo) {
+	if info.Ctrl != "batchrelease" || info.Err != nil || info.Task == nil || info.Task.Flags["br-status-write"] {
+		return
+	}
+	k := ObjKey{GK: gkBR, NS: info.Req.Namespace, Name: info.Req.Name}
+	rd := asReadBR(info.Task, k)
+	if rd == nil || rd.DeletionTimestamp != nil || rd.Spec.ReleasePlan.BatchPartition == nil || rd.Status.Phase != v1beta1.RolloutPhaseProgressing ||
+		rd.Status.CanaryStatus.CurrentBatchState != v1beta1.ReadyBatchState || rd.Status.ObservedGeneration != rd.Generation {
+		return
+	}
+	prev := s.cur
+	s.cur = info.Task
+	defer func() { s.cur = prev }()
+	stable, _ := o.workloadAsRead(s, rd)
+	if stable == nil {
+		return
+	}
+	rev := ""
+	switch wl := stable.(type) {
+	case *kruisev1alpha1.CloneSet:
+		rev = wl.Status.UpdateRevision
+		if int32(*wl.Spec.Replicas) != rd.Status.ObservedWorkloadReplicas {
+			return
+		}
+	case *appsv1.Deployment:
+		rev = rutil.ComputeHash(&wl.Spec.Template, nil)
+		if int32(*wl.Spec.Replicas) != rd.Status.ObservedWorkloadReplicas {
+			return
+		}
+	}
+	if rev != rd.Status.UpdateRevision {
+		return
+	}
+	s.probe("c11.b4-evaluations")
+	if msg := o.batchNotReady(s, rd, int(rd.Status.CanaryStatus.CurrentBatch)); msg != "" {
+		s.Violate("C11", "B4-fallback", "B4/"+o.sc.Family, s.Store.seq, "BatchRelease reconcile left batch %d Ready although the workload it read has %s", rd.Status.CanaryStatus.CurrentBatch, msg)
+	}
+}
+
+// wl2gen: the workload's own controller has not caught up with its spec yet (status not trustworthy)
+func wl2gen(o client.Object) bool {
+	switch wl := o.(type) {
+	case *kruisev1alpha1.CloneSet:
+		return wl.Status.ObservedGeneration < wl.Generation
+	case *appsv1.Deployment:
+		return wl.Status.ObservedGeneration < wl.Generation
+	}
+	return false
 }
 
 // failure threshold: percentage of the updated pods, rounded up (documented on the field)
